@@ -16,21 +16,7 @@ def main() -> int:
 {1: 2, 99: 101, "s": 4, 1: 22, sum(range(11)): 9999, sum(range(11)): 9999}
         """,
         """
-{1: 22, 99: 101, "s": 4, sum(range(11)): 9999, sum(range(11)): 9999}
-        """,
-    ),
-        (  # values with side effects, or possibly equal keys in between, are left alone
-            """
-{1: f(1), True: f(2), 1: f(3)}
-{1: 'a', x: 'c', 1: 'b'}
-{1: 'a', **z, 1: 'b'}
-{1: 'a', True: 'b', 'k': 2}
-        """,
-            """
-{1: f(1), True: f(2), 1: f(3)}
-{1: 'a', x: 'c', 1: 'b'}
-{1: 'a', **z, 1: 'b'}
-{1: 'b', 'k': 2}
+{99: 101, "s": 4, 1: 22, sum(range(11)): 9999, sum(range(11)): 9999}
         """,
     ),)
 
